@@ -173,6 +173,29 @@ pub fn run(out: &mut Out, seed: u64, thorough: bool) {
             }
         }
     }
+    // three-packet trains whose first fragment is a re-use and whose end packet carries fewer bytes
+    // than the label is long (the total length of such a train counts no label bytes)
+    for (li, label) in [LA6, LA3, LB6].iter().enumerate() {
+        for tail in 0..8usize {
+            for subst in [true, false] {
+                let plen = 40 + tail + li;
+                let first_payload = 10;
+                let wll = if subst { 0 } else { label.len() };
+                let cfg = ChainCfg {
+                    plen,
+                    label: *label,
+                    subst_first: subst,
+                    ptype: 0x0800,
+                    fragid: (60 + tail) as u8,
+                    // first fragment carries 10 bytes, the intermediate leaves `tail` bytes
+                    sched: vec![7 + wll + first_payload, 3 + (plen - first_payload - tail), 4097],
+                    slots: 2,
+                    extra_storage: tail % 2,
+                };
+                run_chain(out, &mut rng, &cfg, "short_tail");
+            }
+        }
+    }
     // long PDUs up to the 16-bit total length, a few with tiny buffers (many packets)
     for (i, plen) in big.iter().enumerate() {
         let label = labels[i % 3];
